@@ -320,6 +320,16 @@ Proof.
     + vm_compute. repeat split; constructor; try reflexivity; constructor.
 Qed.
 
+(* ---- the premises are invariants: every tree that any sequence of the modelled operations (mkdirat / mknodat /
+   symlinkat, openat(O_CREAT), unlinkat, linkat, renameat2 with its three flag values, mkdir_all's loop, remove_all) can
+   produce from an empty root -- any order, any arguments, failing or not -- satisfies what the functional theorems
+   assume of a tree (closed2, ents_ok, uniq, dirs_ok, tree_ok) *)
+From PV Require DynInv.
+Theorem C12_every_reachable_tree_satisfies_the_premises :
+  forall ops, let s := fold_left DynInv.apply_op ops DynInv.root_only in
+  DynMkdir.closed2 s /\ DynRemove.ents_ok s /\ DynRemoveExact.uniq s /\ DynMkdirComplete.dirs_ok s /\ DynRemoveConc.tree_ok s.
+Proof. exact DynInv.reachable_premises. Qed.
+
 (* executed (non-vacuity): abs -> /a; mkdir_all("abs/x/y/z") on both backends creates a/x, a/x/y, a/x/y/z and
    returns the last one; the pure functions give the same tree and object; a file in the way ends the loop
    with ENOTDIR after a/x was created (what was created lies on the chain) *)
@@ -362,3 +372,4 @@ Print Assumptions C12_interference_free_is_spec.
 Print Assumptions C12_own_steps_are_environment_steps.
 Print Assumptions C12_loop_converges_under_racing_creators.
 Print Assumptions C12_racing_callers_hold_the_same_directory.
+Print Assumptions C12_every_reachable_tree_satisfies_the_premises.
